@@ -54,43 +54,64 @@ static inline uint8_t pat(uint64_t off) { return (uint8_t)(off * 131u + (off >> 
 static int in_ring(const uint8_t *p, size_t n) { return p >= RBUF->buf && n <= g_size && p + n <= RBUF->buf + g_size; }
 
 /* ------------------------------------------------------------------ writer */
+typedef struct { int valid; uint8_t *buf; size_t want, avail; unsigned x; int offp; } wpend;
+static wpend g_pend;   /* a block the writer has obtained but not committed yet (readers may poll in between) */
+
+static int w_get(const item_t *it, int b) {
+	uint8_t *buf = NULL;
+	size_t want, avail;
+	size_t round_before = RBUF->round_num;
+	unsigned x = (unsigned)(item_get(it, "seed", 1) * 2654435761u + (unsigned)b * 40503u + (unsigned)S_off);
+	if (g_variable) {
+		x = x * 1103515245u + 12345u;
+		want = g_minb + ((x >> 16) % (g_size / 2 > g_minb ? (g_size / 2 - g_minb + 1) : 1));
+		if (item_get(it, "small", 0)) want = g_minb + ((x >> 20) % 3);
+		if (want > g_size) want = g_size;
+	} else want = g_B;
+	avail = r_buf_wbuf_get(RBUF, want, &buf);
+	if (avail == 0) { sim_violation("rb-writer", "r_buf_wbuf_get(%zu) returned no space in a ring of %zu bytes", want, g_size); return -1; }
+	if (!in_ring(buf, avail)) { sim_violation("rb-range", "r_buf_wbuf_get handed out a region [%p,+%zu) outside the ring storage", (void *)buf, avail); return -1; }
+	if (avail < want) { sim_violation("rb-writer", "r_buf_wbuf_get(%zu) returned only %zu bytes", want, avail); return -1; }
+	if (RBUF->round_num != round_before) { g_round_start = S_off; sim_probe("c19.wrap"); if (RBUF->round_num == 0) sim_probe("c19.round_counter_wrapped"); }
+	g_pend.valid = 1; g_pend.buf = buf; g_pend.want = want; g_pend.avail = avail; g_pend.x = x; g_pend.offp = (int)item_get(it, "offp", 30);
+	return 0;
+}
+
+static void w_commit(void) {
+	uint8_t *buf = g_pend.buf;
+	size_t want = g_pend.want, avail = g_pend.avail, off = 0, len = want;
+	unsigned x = g_pend.x;
+	int rc;
+	if (!g_pend.valid) return;
+	g_pend.valid = 0;
+	if (g_variable) {
+		x = x * 1103515245u + 12345u;
+		if (((x >> 16) % 100) < (unsigned)g_pend.offp) { off = 1 + ((x >> 8) % 7); if (off + g_minb > avail) off = 0; }
+		if (off + len > avail) len = avail - off;
+		if (len < g_minb) { off = 0; len = (avail < want) ? avail : want; }
+	}
+	/* leading gap: garbage that no reader may ever be handed */
+	for (size_t i = 0; i < off; i++) { buf[i] = 0xEE; g_shadow[(size_t)(buf - RBUF->buf) + i] = GAP; }
+	for (size_t i = 0; i < len; i++) { buf[off + i] = pat(S_off + i); g_shadow[(size_t)(buf - RBUF->buf) + off + i] = S_off + i; }
+	if (g_set2) rc = r_buf_wbuf_set2(RBUF, buf + off, len, NULL);
+	else rc = r_buf_wbuf_set(RBUF, off, off + len);
+	if (0 != rc) { sim_violation("rb-writer", "committing a block of %zu bytes (leading offset %zu, %zu available) failed with %d", len, off, avail, rc); return; }
+	if (off) sim_probe("c19.frag_commit");
+	S_off += len;
+	g_committed++;
+}
+
 static void writer_step(const item_t *it) {
 	int n = (int)item_get(it, "n", 1);
+	if (g_pend.valid) {
+		/* finish the block that was left uncommitted; optionally ask for the buffer a second time first */
+		if (item_get(it, "reget", 0)) { const item_t *src = it; sim_probe("c19.get_twice"); if (w_get(src, 9999)) return; }
+		w_commit();
+	}
 	for (int b = 0; b < n && !sim_violated(); b++) {
-		uint8_t *buf = NULL;
-		size_t want, avail, off = 0, len;
-		size_t round_before = RBUF->round_num;
-		unsigned x = (unsigned)(item_get(it, "seed", 1) * 2654435761u + (unsigned)b * 40503u + (unsigned)S_off);
-		if (g_variable) {
-			x = x * 1103515245u + 12345u;
-			want = g_minb + ((x >> 16) % (g_size / 2 > g_minb ? (g_size / 2 - g_minb + 1) : 1));
-			if (item_get(it, "small", 0)) want = g_minb + ((x >> 20) % 3);
-			if (want > g_size) want = g_size;
-		} else want = g_B;
-		avail = r_buf_wbuf_get(RBUF, want, &buf);
-		if (avail == 0) { sim_violation("rb-writer", "r_buf_wbuf_get(%zu) returned no space in a ring of %zu bytes", want, g_size); return; }
-		if (!in_ring(buf, avail)) { sim_violation("rb-range", "r_buf_wbuf_get handed out a region [%p,+%zu) outside the ring storage", (void *)buf, avail); return; }
-		if (avail < want) { sim_violation("rb-writer", "r_buf_wbuf_get(%zu) returned only %zu bytes", want, avail); return; }
-		if (RBUF->round_num != round_before) { g_round_start = S_off; sim_probe("c19.wrap"); if (RBUF->round_num == 0) sim_probe("c19.round_counter_wrapped"); }
-		len = want;
-		if (g_variable) {
-			x = x * 1103515245u + 12345u;
-			if (((x >> 16) % 100) < (unsigned)item_get(it, "offp", 30)) { off = 1 + ((x >> 8) % 7); if (off + g_minb > avail) off = 0; }
-			if (off + len > avail) len = avail - off;
-			if (len < g_minb) { off = 0; len = (avail < want) ? avail : want; }
-		}
-		/* leading gap: garbage that no reader may ever be handed */
-		for (size_t i = 0; i < off; i++) { buf[i] = 0xEE; g_shadow[(size_t)(buf - RBUF->buf) + i] = GAP; }
-		for (size_t i = 0; i < len; i++) { buf[off + i] = pat(S_off + i); g_shadow[(size_t)(buf - RBUF->buf) + off + i] = S_off + i; }
-		{
-			int rc;
-			if (g_set2) rc = r_buf_wbuf_set2(RBUF, buf + off, len, NULL);
-			else rc = r_buf_wbuf_set(RBUF, off, off + len);
-			if (0 != rc) { sim_violation("rb-writer", "committing a block of %zu bytes (leading offset %zu, %zu available) failed with %d", len, off, avail, rc); return; }
-		}
-		if (off) sim_probe("c19.frag_commit");
-		S_off += len;
-		g_committed++;
+		if (w_get(it, b)) return;
+		if (b == n - 1 && item_get(it, "hold", 0)) { sim_probe("c19.reader_between_get_and_commit"); return; } /* readers run before the commit */
+		w_commit();
 	}
 }
 
@@ -251,6 +272,8 @@ static void c19_gen(plan_t *p, rng_t *r, int tier) {
 			if (n < 1) n = 1; if (n > 3000) n = 3000;
 			item_set(&op->it, "n", n);
 			item_set(&op->it, "seed", (long long)rng_below(r, 1u << 30));
+			item_set(&op->it, "hold", rng_chance(r, 250));
+			item_set(&op->it, "reget", rng_chance(r, 300));
 			if (variable) { item_set(&op->it, "offp", rng_chance(r, 500) ? 0 : (long long)rng_below(r, 60)); item_set(&op->it, "small", rng_chance(r, 300)); }
 		} else {
 			op = plan_add_op(p, "r");
@@ -269,6 +292,7 @@ static void c19_pre(const plan_t *p) {
 	(void)p;
 	RBUF = NULL;
 	S_off = 0; g_round_start = 0; g_committed = 0;
+	memset(&g_pend, 0, sizeof(g_pend));
 	memset(RD, 0, sizeof(RD));
 	for (int i = 0; i < RB_MAXSZ; i++) g_shadow[i] = GAP;
 }
